@@ -346,9 +346,22 @@ class IH5Record(IH5Group):
         ret._closed = False
 
         ret._ublocks = {Path(path): IH5UserBlock.load(path) for path in paths}
+        ret.__files__ = []
+        try:
+            ret._open_files(paths, allow_baseless, **kwargs)
+        except Exception:
+            for f in ret.__files__:  # do not keep files of a rejected set open
+                f.close()
+            raise
+        return ret
+
+    def _open_files(self, paths: List[Path], allow_baseless: bool, **kwargs):
+        """Open and check the containers of a record (helper for `_open`)."""
+        ret = self
         # files, sorted  by patch index order (important!)
         # if something is wrong with the indices, this will throw an exception.
-        ret.__files__ = [h5py.File(path, "r") for path in paths]
+        for path in paths:
+            ret.__files__.append(h5py.File(path, "r"))
         ret.__files__.sort(key=lambda f: ret._ublock(f).patch_index)
         # ----
         has_patches: bool = len(ret.__files__) > 1
@@ -384,7 +397,6 @@ class IH5Record(IH5Group):
         if len(cn_uuids) != len(ret.__files__):
             raise ValueError("Some patch_uuid is not unique, invalid file set!")
         # all looks good
-        return ret
 
     # ---- public attributes and interface ----
 
